@@ -14,7 +14,7 @@ import (
 	"verif/harness/stats"
 )
 
-const ruleC15 = "rapid-generated messages built through the public API (hostile strings, NUL-free IDs, all Retry classes); (i) WriteTo/MarshalText/String give identical bytes equal to the reference encoding with n == len; (ii) UnmarshalText of those bytes succeeds, re-encodes identically and reproduces ID, type, retry (ms) and the ordered data/comment lines; (iii) for EVERY Write call index k of the clean encoding and two failure modes (error with 0 bytes accepted; short write of a drawn proper prefix with an error), WriteTo must return exactly the injected error, n == bytes accepted, the accepted bytes must be the length-n prefix of the full encoding and no Write may follow the failing one. Non-trivial: the message has an ID or type, at least one data and one comment line (every writer path runs) and at least 3 Write calls were fault-injected. Distinct: FNV-64 of the JSON of the case."
+const ruleC15 = "rapid-generated messages built through the public API (hostile strings incl. long runs, NUL-free IDs, all Retry classes, optional clone in the middle); (i) WriteTo/MarshalText/String give identical bytes equal to the reference encoding with n == len; (ii) UnmarshalText of those bytes succeeds, re-encodes identically and reproduces ID, type, retry (ms) and the ordered data/comment lines; (iii) for EVERY Write call index k of the clean encoding and two failure modes (error with 0 bytes accepted; short write of a drawn proper prefix with an error), WriteTo must return exactly the injected error, n == bytes accepted, the accepted bytes must be the length-n prefix of the full encoding and no Write may follow the failing one; (iii-b) the same for a writer that accepts exactly B bytes in total and then fails, for every B below the encoding length (strided beyond 300 bytes), which does not depend on how the encoder groups its writes. Non-trivial: the message has an ID or type, at least one data and one comment line (every writer path runs) and at least 6 fault points were executed. Distinct: FNV-64 of the JSON of the case."
 
 type C15Case struct {
 	Msg      MsgCase `json:"msg"`
@@ -62,6 +62,31 @@ func (w *faultWriter) Write(p []byte) (int, error) {
 	}
 	w.buf.Write(p)
 	return len(p), nil
+}
+
+// budgetWriter accepts exactly budget bytes in total, then fails (with a short write when a
+// call crosses the budget).
+type budgetWriter struct {
+	buf       bytes.Buffer
+	budget    int
+	failed    bool
+	afterFail int
+}
+
+func (w *budgetWriter) Write(p []byte) (int, error) {
+	if w.failed {
+		w.afterFail++
+		return 0, errInjected
+	}
+	room := w.budget - w.buf.Len()
+	if len(p) < room {
+		w.buf.Write(p)
+		return len(p), nil
+	}
+	// this call reaches or crosses the budget: accept what fits and fail
+	w.failed = true
+	w.buf.Write(p[:room])
+	return room, errInjected
 }
 
 func checkC15(t *testing.T, c C15Case) *stats.Verdict {
@@ -143,6 +168,33 @@ func checkC15(t *testing.T, c C15Case) *stats.Verdict {
 			}
 		}
 	}
+	// (iii-b) the same, independent of how the encoder groups its writes: a writer that accepts
+	// exactly B bytes in total and then fails, for every B below the length (a stride for long
+	// encodings)
+	stride := 1
+	if len(want) > 300 {
+		stride = len(want)/150 + 1
+	}
+	budgets := 0
+	for b := c.ShortPct % stride; b < len(want); b += stride {
+		bw := &budgetWriter{budget: b}
+		n, err := m.WriteTo(bw)
+		budgets++
+		if err != errInjected { //nolint:errorlint // identity is the claim
+			return v.Failf("", "writer stopped accepting after %d bytes but WriteTo returned err=%v (wire %q)", b, err, want)
+		}
+		if n != int64(bw.buf.Len()) || bw.buf.Len() != b {
+			return v.Failf("", "writer accepted %d bytes in total (budget %d), WriteTo reported n=%d (wire %q)", bw.buf.Len(), b, n, want)
+		}
+		if bw.buf.String() != want[:b] {
+			return v.Failf("", "writer with a budget of %d bytes received %q, not a prefix of %q", b, bw.buf.String(), want)
+		}
+		if bw.afterFail != 0 {
+			return v.Failf("", "%d Write call(s) followed the failing one (budget %d, wire %q)", bw.afterFail, b, want)
+		}
+	}
+	triples += budgets
+	v.Count("byte_budget_faults", int64(budgets))
 	v.Count("fault_triples", int64(triples))
 	if mod.IDSet {
 		v.Class("has-id")
